@@ -43,7 +43,9 @@ Ops ==
   {O(p \o s, TRUE, {}) : p \in AeadP, s \in {"_encrypt", "_encrypt_detached"}} \cup
   {O(p \o "_decrypt", TRUE, StatusDecrypt(p) \cup {"decrypt_detached", p \o "_decrypt_detached_afternm"}) : p \in AeadP} \cup
   {O(n, TRUE, {}) : n \in {"sodium_bin2hex", "sodium_bin2base64_v1", "sodium_bin2base64_v3", "sodium_bin2base64_v5", "sodium_bin2base64_v7",
-                           "sodium_pad", "sodium_unpad", "sodium_unpad_invalid"}}
+                           "sodium_pad", "sodium_unpad", "sodium_unpad_invalid",
+                           \* the same with block sizes of several pages and a non-power of two (the block size is public, the padding length is not)
+                           "sodium_pad_bs16384", "sodium_unpad_bs16384", "sodium_unpad_bs5000", "sodium_unpad_invalid_bs8192"}}
 OpNames == {o.op : o \in Ops}
 OpOf(n) == CHOOSE o \in Ops : o.op = n
 \* operations that need hardware AES (absent under some CPU masks / builds)
